@@ -80,7 +80,7 @@ def fresh_world():
 
 
 def recv_stream(e, forms, npub, max_polls, max_none, check, drops=0, restart=False, sym_state=False, balance=False,
-                consumer_restart=False, bal_flag=None, disjoint_ids=False, low_latency=None, timeout_ms=None, again=False, any_order=False):
+                consumer_restart=False, bal_flag=None, disjoint_ids=False, low_latency=None, timeout_ms=None, again=False, any_order=False, ctrl=False):
     """Build a receiver over len(forms) sources, queue a bounded symbolic stream on every connection and call the real
     ZMQReceiver.recv until the schedule is exhausted; `check(ctx, data, st)` is the oracle for every returned set.
 
@@ -119,7 +119,17 @@ def recv_stream(e, forms, npub, max_polls, max_none, check, drops=0, restart=Fal
     for d in range(drops):
         j = e.choice('drop', len(allparts) + 1)
         if j < len(allparts): dropped.add(j)
+    ctrl_at = ctrl_msg = None
+    if ctrl:       # one protocol control message of the publisher (HELLO after a new client, out-of-band message, CLOSE at shutdown) anywhere in the stream
+        ck = e.choice('ctrl_kind', 4)
+        if ck:
+            ctrl_at = e.choice('ctrl_pos', len(allparts))
+            mid_c = [None, Z.MSG_ID_HELLO, Z.MSG_ID_OOB, Z.MSG_ID_CLOSE][ck]
+            env = {'sid': allparts[ctrl_at][1][1].d['sid'], 'mid': mid_c}
+            if ck == 2: env['xtra'] = 'oob'
+            ctrl_msg = [b'//', Env(env)]
     for j, (sub, part) in enumerate(allparts):
+        if j == ctrl_at: sub.deliver(ctrl_msg)
         if j not in dropped: sub.deliver(part)
     World.oracle = PollOracle(e, max_polls, max_none, advance_clock=timeout_ms is not None)
     if again:        # the n-th request send hits the PUSH high water mark (zmq.Again): the receiver then considers that source disconnected
